@@ -9,8 +9,9 @@ def main(tier):
     ck = Check("C12", tier, "other",
                "Contracts on the real CNF builder methods, checked by concolic execution of the unmodified code with symbolic "
                "variable ids / fresh counter and an uninterpreted truth assignment. half_adder, full_adder, saturate_adder are "
-               "loop-free: all paths explored and covered => proved for every input (tier P). ripple_carry is additionally proved for every width by pyvc.wp "
-               "(loop invariant over partial sums, full_adder by contract: returned ids, fresh counter, sum equation). ripple_carry, ripple_saturate, "
+               "loop-free: all paths explored and covered => proved for every input (tier P). ripple_carry and ripple_saturate are additionally proved for every width "
+               "(and every saturation point) by pyvc.wp (loop invariant over partial sums, full_adder / saturate_adder by contract: returned ids, fresh counter, "
+               "sum equation, documented saturation of the top bit). ripple_carry, ripple_saturate, "
                "pop_count(+_pop_count_layer) are proved per concrete width (tier S, bounded in width only) against their callees' "
                "contracts; 'no other freedom' is the Lemma-DE side condition (every fresh id defined exactly once as a function of "
                "smaller ids) checked at every level. Counterexamples are replayed on the real code with pycryptosat.")
@@ -31,8 +32,8 @@ def main(tier):
                "obligations were generated" % (maxL, maxS, maxS + 1, maxN, list(sats)))
     ck.exhaustive = False
     run_plan(ck, plan, budget_ms(tier), prop_prefix="C12.")
-    # ripple_carry for EVERY width: pyvc.wp over the real source with full_adder by contract (loop invariant over the partial sums)
-    run_wp(ck, ["ripple_carry"], budget_ms(tier), prefix="C12.wp.")
+    # ripple_carry / ripple_saturate for EVERY width: pyvc.wp over the real source with full_adder by contract (loop invariant over the partial sums)
+    run_wp(ck, ["ripple_carry", "ripple_saturate"], budget_ms(tier), prefix="C12.wp.")
     ck.trust("z3 4.x / cvc5 as SMT back ends", "CPython semantics of the executed builder code (it is the code that runs)",
              "pycryptosat for native replay")
     ck.assume("math.ceil(math.log(n, 2)) evaluated concretely per shape (n bounded by the shape bound)",
